@@ -132,6 +132,23 @@ Theorem dijkstra_astar_same_cost :
     (route_cost Qplus 0 cfloor r1 == route_cost Qplus 0 cfloor r2)%Q.
 Proof. exact @OptimalInst.dijkstra_astar_same_cost. Qed.
 
+(* edge-oriented queries: the part of the route between the two query edges (added with zero cost) inherits whatever
+   the vertex-oriented algorithm guarantees for its route; instantiate Opt with the conclusions above *)
+Theorem edge_oriented_optimal :
+  forall (C St : Type) (czero : C) (g : graph) (traverse : dir -> nat -> option nat -> St -> res (C * C * St))
+         (init_state : res St) (d : dir) (alg : nat -> option nat -> res (sresult C St))
+         (Opt : nat -> nat -> list (etrav C St) -> Prop),
+    (forall s t res, alg s (Some t) = Ok res -> exists r, r_routes res = [r] /\ Opt s t r) ->
+  forall e1 e2 ed1 ed2 res,
+    get_edge g e1 = Some ed1 -> get_edge g e2 = Some ed2 -> e1 <> e2 -> key_vertex d ed1 <> term_vertex d ed2 ->
+    run_edge_oriented czero g traverse init_state d alg e1 (Some e2) = Ok res ->
+    exists r first last,
+      r_routes res = [first :: r ++ [last]]
+      /\ et_edge first = e1 /\ et_edge last = e2
+      /\ et_access first = czero /\ et_trav first = czero /\ et_access last = czero /\ et_trav last = czero
+      /\ Opt (key_vertex d ed1) (term_vertex d ed2) r.
+Proof. exact @OptimalInst.edge_oriented_optimal. Qed.
+
 (* The one proof behind both: any priority F v x = cadd x (hv v) with (edge) and (reflect), and ANY queue whose pop
    returns some entry of minimal priority - so the conclusions do not depend on how the queue breaks ties.
    Search.run_vertex_oriented is the instance pop := Search.pq_pop (OptimalInst.run_vertex_link). *)
@@ -390,6 +407,7 @@ Print Assumptions dijkstra_tree_labels_optimal.
 Print Assumptions astar_optimal.
 Print Assumptions astar_optimal_weighted_estimate.
 Print Assumptions dijkstra_astar_same_cost.
+Print Assumptions edge_oriented_optimal.
 Print Assumptions c02_generic_optimal.
 Print Assumptions c02_generic_route_label.
 Print Assumptions c02_invariants.
